@@ -115,20 +115,22 @@ int dQuerySpace(SuperMatrix *L, SuperMatrix *U, mem_usage_t *mem_usage)
 {
     SCformat *Lstore;
     NCformat *Ustore;
-    register int n, iword, dword, panel_size = sp_ienv(1);
+    register int n, iword, liword, dword, panel_size = sp_ienv(1);
 
     Lstore = L->Store;
     Ustore = U->Store;
     n = L->ncol;
     iword = sizeof(int);
+    liword = sizeof(int_t); /* row indices and column pointers */
     dword = sizeof(double);
 
     /* For LU factors */
-    mem_usage->for_lu = (float)( (4.0*n + 3.0) * iword +
+    mem_usage->for_lu = (float)( (2.0*n + 2.0) * iword +
+                                 (2.0*n + 1.0) * liword +
                                  Lstore->nzval_colptr[n] * dword +
-                                 Lstore->rowind_colptr[n] * iword );
-    mem_usage->for_lu += (float)( (n + 1.0) * iword +
-				 Ustore->colptr[n] * (dword + iword) );
+                                 Lstore->rowind_colptr[n] * liword );
+    mem_usage->for_lu += (float)( (n + 1.0) * liword +
+				 Ustore->colptr[n] * (dword + liword) );
 
     /* Working storage to support factorization */
     mem_usage->total_needed = mem_usage->for_lu +
@@ -154,20 +156,22 @@ int ilu_dQuerySpace(SuperMatrix *L, SuperMatrix *U, mem_usage_t *mem_usage)
     SCformat *Lstore;
     NCformat *Ustore;
     register int n, panel_size = sp_ienv(1);
-    register float iword, dword;
+    register float iword, liword, dword;
 
     Lstore = L->Store;
     Ustore = U->Store;
     n = L->ncol;
     iword = sizeof(int);
+    liword = sizeof(int_t); /* row indices and column pointers */
     dword = sizeof(double);
 
     /* For LU factors */
-    mem_usage->for_lu = (float)( (4.0f * n + 3.0f) * iword +
+    mem_usage->for_lu = (float)( (2.0f * n + 2.0f) * iword +
+				 (2.0f * n + 1.0f) * liword +
 				 Lstore->nzval_colptr[n] * dword +
-				 Lstore->rowind_colptr[n] * iword );
-    mem_usage->for_lu += (float)( (n + 1.0f) * iword +
-				 Ustore->colptr[n] * (dword + iword) );
+				 Lstore->rowind_colptr[n] * liword );
+    mem_usage->for_lu += (float)( (n + 1.0f) * liword +
+				 Ustore->colptr[n] * (dword + liword) );
 
     /* Working storage to support factorization.
        ILU needs 5*n more integers than LU */
